@@ -386,8 +386,15 @@ func (g *gen) commitRound(vh uint64, vr uint32, cr uint32, flavour int) {
 		// a copy whose validator lists were altered in transit (hashes and
 		// signature untouched) arrives before, or right after, the original
 		forged := ph
-		forged.Header.ValidatorSet = forgeLists(ph.Header.ValidatorSet, g, flavour%2 == 0)
-		forged.Header.NextValidatorSet = forgeLists(ph.Header.NextValidatorSet, g, flavour%3 != 0)
+		switch g.pick(3) {
+		case 0:
+			forged.Header.ValidatorSet = forgeLists(ph.Header.ValidatorSet, g, flavour%2 == 0)
+			forged.Header.NextValidatorSet = forgeLists(ph.Header.NextValidatorSet, g, flavour%3 != 0)
+		case 1:
+			forged.Header.NextValidatorSet = forgeLists(ph.Header.NextValidatorSet, g, flavour%3 != 0)
+		default:
+			forged.Header.ValidatorSet = forgeLists(ph.Header.ValidatorSet, g, flavour%2 == 0)
+		}
 		if flavour < 32 {
 			g.sendPH(forged, "forged-lists-copy-first")
 			g.sendPH(ph, "legit-after-forged-copy")
@@ -449,6 +456,7 @@ func (g *gen) nilRound(vh uint64, vr uint32) {
 	for _, c := range g.chunks(pc) {
 		g.sendVote(g.validVote(kindPrecommit, vh, vr, "", c))
 	}
+	g.noteEnded(vh, vr, "nil-quorum")
 	g.cs.count("progress.nil-round")
 }
 
@@ -476,6 +484,9 @@ func (g *gen) splitRound(vh uint64, vr uint32, cr uint32) {
 	// the rest vote nil (or are split further)
 	if !exceedsTwoThirds(set.power(toSet(b)), set.total) {
 		g.sendVote(g.validVote(kindPrecommit, vh, vr, "", b))
+		if !exceedsTwoThirds(set.power(toSet(a)), set.total) {
+			g.noteEnded(vh, vr, "fully-voted-without-quorum")
+		}
 	}
 	g.cs.count("progress.split-round")
 }
@@ -529,7 +540,9 @@ func (g *gen) replayCommit(vh uint64, vr uint32, cr uint32) {
 	proof := g.w.commitProofFor(vh, vr, hash, idxs, nil)
 	if g.pick(4) == 0 {
 		hd := ph.Header
-		hd.ValidatorSet = forgeLists(hd.ValidatorSet, g, g.pick(2) == 0)
+		if g.pick(2) == 0 {
+			hd.ValidatorSet = forgeLists(hd.ValidatorSet, g, g.pick(2) == 0)
+		}
 		hd.NextValidatorSet = forgeLists(hd.NextValidatorSet, g, g.pick(3) != 0)
 		g.sendReplay(hd, proof, "forged-lists-copy-first")
 		g.forgedCopies++
@@ -995,8 +1008,19 @@ func (g *gen) attackPH(h uint64, r uint32, cr uint32) (tmconsensus.ProposedHeade
 }
 
 // forgeLists returns a copy of vs whose validator lists were altered while
-// both hashes stay as they were.
+// both hashes stay as they were. keys=true swaps keys, false alters powers.
 func forgeLists(vs tmconsensus.ValidatorSet, g *gen, keys bool) tmconsensus.ValidatorSet {
+	mode := 1
+	if keys {
+		mode = []int{0, 0, 2, 3}[g.pick(4)]
+	}
+	return forgeListsMode(vs, g, mode)
+}
+
+// forgeListsMode: 0 = foreign keys in both lists, 1 = powers altered,
+// 2 = only the PubKeys list replaced (Validators untouched),
+// 3 = only the Validators' keys replaced (PubKeys untouched).
+func forgeListsMode(vs tmconsensus.ValidatorSet, g *gen, mode int) tmconsensus.ValidatorSet {
 	out := tmconsensus.ValidatorSet{PubKeyHash: vs.PubKeyHash, VotePowerHash: vs.VotePowerHash}
 	out.Validators = append([]tmconsensus.Validator(nil), vs.Validators...)
 	out.PubKeys = append([]gcrypto.PubKey(nil), vs.PubKeys...)
@@ -1004,18 +1028,26 @@ func forgeLists(vs tmconsensus.ValidatorSet, g *gen, keys bool) tmconsensus.Vali
 	if n == 0 {
 		return out
 	}
-	if keys {
-		f := g.w.foreignSet(n)
+	f := g.w.foreignSet(n)
+	switch mode {
+	case 0:
 		for i := range out.Validators {
 			out.Validators[i].PubKey = f.keys[i].pub
 			out.PubKeys[i] = f.keys[i].pub
 		}
-	} else {
-		// powers: give everything to validator 0
+	case 1:
 		for i := range out.Validators {
 			out.Validators[i].Power = 1
 		}
 		out.Validators[0].Power = 1 << 40
+	case 2:
+		for i := range out.PubKeys {
+			out.PubKeys[i] = f.keys[i].pub
+		}
+	default:
+		for i := range out.Validators {
+			out.Validators[i].PubKey = f.keys[i].pub
+		}
 	}
 	return out
 }
@@ -1388,4 +1420,27 @@ func (g *gen) minorityOnly() {
 			return
 		}
 	}
+}
+
+// noteEnded records that the harness ended round (h, r) by its own precommits,
+// if the node really is past that round now and nothing else (a jump caused by
+// next-round votes) can have moved it.
+func (g *gen) noteEnded(h uint64, r uint32, how string) {
+	if g.mo == nil || g.recording {
+		return
+	}
+	nh, nr, _, _, ok := g.n.pos()
+	if !ok || nh != h || nr != r+1 {
+		return
+	}
+	// a jump would need valid votes delivered for round r+1 or later before this point
+	g.w.mu.Lock()
+	for k, m := range g.w.delivered {
+		if k.h == h && k.r > r && len(m) > 0 {
+			g.w.mu.Unlock()
+			return
+		}
+	}
+	g.w.mu.Unlock()
+	g.mo.c11.endedRounds[hrKey{h, r}] = how
 }
